@@ -71,3 +71,13 @@ Proof.
   - intros H. destruct (supported_pow2_le m H) as [Pm Lm].
     rewrite (pow2_pow2b m Pm). apply N.leb_le in Lm. rewrite Lm. reflexivity.
 Qed.
+
+(* the sizing policy's constants (ArenaPolicyFacts.policy_consts_okb) *)
+From BV Require Import ArenaPolicy ArenaPolicyFacts.
+Lemma actual_policy_ok m e : In m supported -> policy_consts_okb (actual m e) = true.
+Proof.
+  intros H. cbn [supported In] in H.
+  destruct H as [<-|[<-|[<-|[<-|[<-|[]]]]]]; vm_compute; reflexivity.
+Qed.
+Lemma actual_default_small m e : k_default (actual m e) < W.
+Proof. vm_compute. reflexivity. Qed.
